@@ -11,6 +11,24 @@ class SymDir(DirectedEdge): pass
 class SymUnd(UnDirectedEdge): pass
 class SymTwo(TwoEndedLink): pass
 class SymLink(Link): pass
+class RoadLink(DirectedEdge):
+    """a user edge class whose constructor names its two ends differently (positional compatibility only)"""
+    def __init__(self, origin=None, dest=None, **kw):
+        super().__init__(origin, dest, **kw)
+class FixedEndsEdge(DirectedEdge):
+    """a user edge class whose ends are fixed at construction: assigning v1 / v2 afterwards is refused"""
+    @property
+    def v1(self):
+        return DirectedEdge.v1.fget(self)
+    @v1.setter
+    def v1(self, new):
+        raise AttributeError("the ends of a FixedEndsEdge cannot be re-assigned")
+    @property
+    def v2(self):
+        return DirectedEdge.v2.fget(self)
+    @v2.setter
+    def v2(self, new):
+        raise AttributeError("the ends of a FixedEndsEdge cannot be re-assigned")
 class SymBothDU(DirectedEdge, UnDirectedEdge):
     """a link class deriving from both edge classes (directed first in the MRO)"""
 class SymBothUD(UnDirectedEdge, DirectedEdge):
@@ -277,6 +295,7 @@ class H:
         from . import ae as _ae
         stack = list(roots) + [m.globals for m in self.w.mods.values() if isinstance(m, _ae.ModuleV)]
         seen, out = set(), {}
+        weaks = []
         while stack:
             x = stack.pop()
             if x is None or isinstance(x, (str, int, float, bool, bytes, _ast.AST, _ae.Digest, _ae.Tok, _ae.Opaque, _ae.World, _ae.Interp)) or type(x).__name__ == "SymId":
@@ -286,6 +305,13 @@ class H:
             seen.add(id(x))
             if isinstance(x, (_ae.Obj, _ae.Seq, _ae.DictV, _ae.SetV, _ae.Func)) and not isinstance(x, _ae.LiveDictV):
                 out[id(x)] = x
+            weak = getattr(x, "weak", None)
+            if weak is not None and isinstance(x, (_ae.DictV, _ae.SetV)):
+                # a weak container does not keep its weak side alive
+                if isinstance(x, _ae.DictV):
+                    stack.extend((p_[1] if weak == "keys" else p_[0]) for p_ in x.pairs)
+                weaks.append(x)
+                continue
             if isinstance(x, dict):
                 stack.extend(x.keys())
                 stack.extend(x.values())
@@ -297,6 +323,7 @@ class H:
                     stack.extend(v for k, v in d.items() if k not in ("_verif_idslot", "_verif_livedict"))
                 for sl in getattr(type(x), "__slots__", ()):
                     stack.append(getattr(x, sl, None))
+        self._gc_weak = weaks
         return out
 
     def gc_step(self, roots):
@@ -306,6 +333,19 @@ class H:
         against the id of a newcomer - which is what CPython does sooner or later."""
         from . import ae as _ae
         live = self._reach_all(roots)
+        # weak containers lose the entries whose referent nothing else reaches
+        swept = False
+        for wc in getattr(self, "_gc_weak", []):
+            if isinstance(wc, _ae.DictV):
+                keep = [p_ for p_ in wc.pairs if not isinstance(p_[0 if wc.weak == "keys" else 1], (_ae.Obj, _ae.Seq, _ae.DictV, _ae.SetV, _ae.Func)) or id(p_[0 if wc.weak == "keys" else 1]) in live]
+                if len(keep) != len(wc.pairs):
+                    wc.pairs, swept = keep, True
+            else:
+                keep = [x for x in wc.items if not isinstance(x, (_ae.Obj, _ae.Seq, _ae.DictV, _ae.SetV, _ae.Func)) or id(x) in live]
+                if len(keep) != len(wc.items):
+                    wc.items, swept = keep, True
+        if swept:
+            live = self._reach_all(roots)
         prev = getattr(self, "_gc_live", None)
         pool = getattr(self, "_gc_pool", None)
         if pool is None:
